@@ -88,6 +88,9 @@ def path(eng, acc, task):
         poly.ABSTRACT[0] = None
     if rec.get('snap') and not unchanged(rec['snap']):
         fails.append(f'{op}: an object that must stay untouched was modified')
+    for (o_, keys_) in rec.get('attr_snap', []):
+        if frozenset(vars(o_)) != keys_:
+            fails.append(f'{op}: an object that must stay untouched gained or lost an attribute ({sorted(set(vars(o_)) ^ set(keys_))})')
     if rec.get('operands') and not rec['pure']:
         eng.mark('hamiltonian_untouched')
     if rec['pure']:
